@@ -139,12 +139,15 @@ class _Driver:
         return False
 
     def window(self, start: Any, end: Any, fill: Any) -> list[float]:
+        if self.mw is not None and isinstance(fill, float) and math.isnan(fill):
+            # the default fill value: go through MovingWindow.__getitem__ with a slice
+            return [float(x) for x in self.mw[start:end]]
         obj = self.mw if self.mw is not None else self.buf
         return [float(x) for x in obj.window(start, end, force_copy=True, fill_value=fill)]
 
-    def at(self, key: datetime) -> float:
+    def at(self, key: Any) -> float:
         if self.mw is not None:
-            return float(self.mw.at(key))
+            return float(self.mw[key])  # __getitem__ -> at() for datetimes and integers
         # OrderedRingBuffer has no at(); use a one-slot window
         raise NotImplementedError
 
@@ -378,6 +381,13 @@ def run_case(case: Any, pid: str) -> Verdict:
                         if got_at != model[k]:
                             v.fail(f"{where}: at(slot {k}) = {got_at}, stored value is {model[k]}")
                             return
+                        # the same slot by integer index (0 = oldest covered slot, negative from the newest)
+                        for idx in (k - o, k - n - 1):
+                            got_idx = drv.at(idx)
+                            if got_idx != model[k]:
+                                v.fail(f"{where}: window[{idx}] = {got_idx}, stored value of slot {k} is {model[k]} "
+                                       f"(covered [{o}, {n}])")
+                                return
                     elif k < o or k > n:
                         try:
                             drv.at(ts_of(k))
